@@ -119,6 +119,8 @@ type rCtr struct {
 	cfgAtAlloc *CfgSpec // configuration in force when last (re)allocated
 	reqUnsure  bool     // a failed UpdateContainer left the plugin and the runtime with different ideas of the request
 	resAtAlloc bool     // reserved-class under the configuration in force when last (re)allocated
+	restarts int             // plugin restarts the container has lived through
+	toldHist map[string]bool // earlier told cpus|mems values (F7 classification)
 }
 
 type runtimeModel struct {
@@ -352,4 +354,12 @@ func (rt *runtimeModel) dump() string {
 		fmt.Fprintf(&b, "%s[%s] %s\n", c.spec.ID, c.state, c.t)
 	}
 	return b.String()
+}
+
+func (c *rCtr) noteTold() {
+	if c.toldHist == nil {
+		c.toldHist = map[string]bool{}
+	}
+	c.toldHist["cpus="+c.t.Cpus] = true
+	c.toldHist["mems="+c.t.Mems] = true
 }
